@@ -289,5 +289,5 @@ RULE = ("small: every unordered pair of tracks with <= 2 (quick) / <= 3 (thoroug
 SUBCHECKS = [
     SubCheck("small", body_small, enum=enum_small, rule="all unordered pairs of lattice tracks of <= 2/3 fixes x p in {1,2,inf}",
              qshards=8, tshards=16),
-    SubCheck("pairs", body_pair, strategy=strat_pair, quick=8000, thorough=200000, qshards=8),
+    SubCheck("pairs", body_pair, strategy=strat_pair, quick=8000, thorough=150000, qshards=8),
 ]
